@@ -21,6 +21,13 @@ func (o *Optimizer) init() error {
 		return err
 	}
 	o.stmt = stmt
+	// The parser accepts any function name and any number of arguments,
+	// report unknown functions and wrong number of arguments before the
+	// plan is built and the storage is touched
+	err = o.checkFunctionCalls(stmt)
+	if err != nil {
+		return err
+	}
 	switch vstmt := stmt.(type) {
 	case *SelectStmt:
 		o.optimizeSelectExpressions(vstmt)
@@ -32,6 +39,70 @@ func (o *Optimizer) init() error {
 		o.filter = &FilterExec{
 			Ast: vstmt.Where,
 		}
+	}
+	return nil
+}
+
+func (o *Optimizer) checkFunctionCalls(stmt Statement) error {
+	var exprs []Expression
+	switch vstmt := stmt.(type) {
+	case *SelectStmt:
+		exprs = append(exprs, vstmt.Fields...)
+		if vstmt.Where != nil && vstmt.Where.Expr != nil {
+			exprs = append(exprs, vstmt.Where.Expr)
+		}
+	case *DeleteStmt:
+		if vstmt.Where != nil && vstmt.Where.Expr != nil {
+			exprs = append(exprs, vstmt.Where.Expr)
+		}
+	case *PutStmt:
+		for _, kvp := range vstmt.KVPairs {
+			exprs = append(exprs, kvp.Key, kvp.Value)
+		}
+	case *RemoveStmt:
+		exprs = append(exprs, vstmt.Keys...)
+	}
+	var err error
+	for _, expr := range exprs {
+		expr.Walk(func(e Expression) bool {
+			if err != nil {
+				return false
+			}
+			fc, ok := e.(*FunctionCallExpr)
+			if !ok {
+				return true
+			}
+			err = o.checkFunctionCall(fc)
+			return err == nil
+		})
+		if err != nil {
+			return err
+		}
+	}
+	return nil
+}
+
+func (o *Optimizer) checkFunctionCall(fc *FunctionCallExpr) error {
+	fname, err := GetFuncNameFromExpr(fc)
+	if err != nil {
+		return err
+	}
+	var (
+		numArgs int
+		varArgs bool
+	)
+	if funcObj, have := GetScalarFunctionByName(fname); have {
+		numArgs, varArgs = funcObj.NumArgs, funcObj.VarArgs
+	} else if aggrObj, have := GetAggrFunctionByName(fname); have {
+		numArgs, varArgs = aggrObj.NumArgs, aggrObj.VarArgs
+	} else {
+		return NewSyntaxError(fc.GetPos(), "Cannot find function %s", fname)
+	}
+	if !varArgs && len(fc.Args) != numArgs {
+		return NewSyntaxError(fc.GetPos(), "Function %s require %d arguments but got %d", fname, numArgs, len(fc.Args))
+	}
+	if varArgs && len(fc.Args) < numArgs {
+		return NewSyntaxError(fc.GetPos(), "Function %s require at least %d arguments but got %d", fname, numArgs, len(fc.Args))
 	}
 	return nil
 }
